@@ -3,7 +3,8 @@
 # patch applied (does not touch /repo, so it is safe while other work is going on there). Prints the check's verdict.
 set -e
 pid="$1"; patch="$(readlink -f "$2")"; shift 2
-scratch="/tmp/mutrepo_$pid"
+# MUTREPO_TAG: a second scratch copy for the same property (the sweep runs next to the workers' own mutchecks)
+scratch="/tmp/mutrepo_${pid}${MUTREPO_TAG:-}"
 mkdir -p "$scratch"
 rsync -a --delete --exclude target --exclude .git --exclude .verif_harness /repo/ "$scratch/"
 if ! (cd "$scratch" && patch -p1 -s --dry-run < "$patch" >/dev/null 2>&1); then echo "PATCH-DOES-NOT-APPLY to the current /repo (stale seed?)"; echo "mutcheck rc=3"; exit 3; fi
